@@ -6,8 +6,8 @@ import json, os, shutil, subprocess, sys
 HERE = os.path.dirname(os.path.abspath(__file__))
 VERIF = os.path.dirname(HERE)
 REPO = os.environ.get('SYLT_REPO', '/repo')
-FAMILIES = {'C13': ['prec'], 'C03': ['ops', 'shape', 'deferred'], 'C04': ['pure'], 'C05': ['shape'], 'C09': ['scope'],
-            'C02': ['scope', 'deferred', 'ops'], 'C07': ['nopanic', 'scope'], 'C14': ['sugar', 'prec']}
+FAMILIES = {'C13': ['prec'], 'C03': ['ops', 'lits', 'shape', 'deferred'], 'C04': ['pure'], 'C05': ['shape', 'case', 'lits'], 'C09': ['scope'],
+            'C02': ['scope', 'deferred', 'ops', 'lits'], 'C07': ['nopanic', 'scope'], 'C14': ['sugar', 'prec']}
 
 def build():
     bdir = os.path.join(VERIF, '.cache', 'replay-build')
